@@ -31,7 +31,7 @@ INFO = {
     "len() beyond sys.maxsize (CPython __len__ protocol limit) - forest.solutions is the big-integer count",
     "assumptions": [
         "get_context stubbed; parglare classes realize-atomic",
-        "(C) uses stub child nodes exposing only `.solutions`/`.possibilities` - the attributes the real code reads",
+        "(C) builds synthetic forests out of REAL Parent/NodeNonTerm/NodeTerm objects whose cached solution counts are symbolic",
         "inputs named in known_findings.json are assumed away in the symbolic part and replayed natively",
     ],
 }
@@ -269,37 +269,33 @@ def build_B(params, symbolic):
 
 
 # ------------------------------------------------------------------------------------------ (C)
-class _Leaf:
-    def is_nonterm(self):
-        return False
+def _mk_parent(possibilities, solutions=None):
+    """A REAL glr.Parent (no GSS behind it) whose cached number of solutions is preset - so the decoding code under
+    test reads real attributes of real classes; only the forest *content* is synthetic."""
+    from parglare.glr import Parent as RealParent
 
-    def is_term(self):
-        return True
-
-
-class _Child:
-    """Stub for a child Parent: exposes only what Tree.__init__/_enumerate_children read."""
-
-    def __init__(self, solutions):
-        self.solutions = solutions
-        self.possibilities = [_Leaf()]
-
-    @property
-    def ambiguity(self):  # as glr.Parent.ambiguity
-        return len(self.possibilities)
+    p = RealParent.__new__(RealParent)
+    for slot, val in (("head", None), ("root", None), ("start_position", 0), ("end_position", 0), ("possibilities", possibilities),
+                      ("_solutions", solutions), ("_ambiguities", 0), ("production", None), ("token", None)):
+        setattr(p, slot, val)
+    return p
 
 
-class _Node:
-    def __init__(self, children):
-        self.children = children
+def _Child(solutions):
+    """Child link with one (terminal) alternative and a symbolic cached solution count."""
+    from parglare.trees import NodeTerm
 
-    def is_nonterm(self):
-        return True
+    return _mk_parent([NodeTerm(None, None)], solutions)
 
 
-class _Root:
-    def __init__(self, possibilities):
-        self.possibilities = possibilities
+def _Node(children):
+    from parglare.trees import NodeNonTerm
+
+    return NodeNonTerm(None, children, production=None)
+
+
+def _Root(possibilities):
+    return _mk_parent(possibilities)
 
 
 def _rec_tree_class(log):
@@ -361,14 +357,9 @@ def build_C(params, symbolic):
     return h
 
 
-class _Alt:
-    """Stub alternative (a NodeTerm-like possibility) with a symbolic number of solutions."""
-
-    def __init__(self, solutions):
-        self.solutions = solutions
-
-    def is_nonterm(self):
-        return False
+def _Alt(solutions):
+    """Alternative = a real NodeNonTerm over one child link with a symbolic number of solutions."""
+    return _Node([_Child(solutions)])
 
 
 def build_C2(params, symbolic):
@@ -385,8 +376,10 @@ def build_C2(params, symbolic):
             raise Pre()
         alts = [_Alt(s) for s in ss]
         root = _Root(alts)
+        log = []
+        RT = _rec_tree_class(log)
         try:
-            t = Tree(root, counter)
+            t = RT(root, counter)
         except IndexError:
             if counter < total:
                 return "IndexError for an index below the number of solutions"
@@ -400,6 +393,8 @@ def build_C2(params, symbolic):
             before = before + s
         if not (before <= counter and counter < before + ss[idx]):
             return "wrong alternative bucket chosen"
+        if len(log) != 2 or log[1][1] != counter - before:
+            return "index passed down into the chosen alternative is not the remainder"
         bump(stats, "in_range")
         return True
 
